@@ -98,6 +98,9 @@ impl MuxPath {
 struct UdpShared {
     sent: Vec<Vec<u8>>,
     inbox: VecDeque<Vec<u8>>,
+    /// the task waiting in recv_from (UdpClientStream polls its request inside a
+    /// FuturesUnordered, which only re-polls a child that was woken)
+    waker: Option<Waker>,
 }
 
 #[derive(Clone)]
@@ -112,14 +115,18 @@ struct ScriptUdp {
 
 impl DnsUdpSocket for ScriptUdp {
     type Time = SimTime;
-    fn poll_recv_from(&self, _cx: &mut Context<'_>, buf: &mut [u8]) -> Poll<io::Result<(usize, SocketAddr)>> {
-        match self.sh.lock().unwrap().inbox.pop_front() {
+    fn poll_recv_from(&self, cx: &mut Context<'_>, buf: &mut [u8]) -> Poll<io::Result<(usize, SocketAddr)>> {
+        let mut g = self.sh.lock().unwrap();
+        match g.inbox.pop_front() {
             Some(b) => {
                 let n = b.len().min(buf.len());
                 buf[..n].copy_from_slice(&b[..n]);
                 Poll::Ready(Ok((n, server_addr())))
             }
-            None => Poll::Pending,
+            None => {
+                g.waker = Some(cx.waker().clone());
+                Poll::Pending
+            }
         }
     }
     fn poll_send_to(&self, _cx: &mut Context<'_>, buf: &[u8], _target: SocketAddr) -> Poll<io::Result<usize>> {
@@ -191,6 +198,7 @@ impl ClientPath {
                     let mut g = u.sh.lock().unwrap();
                     g.sent.clear();
                     g.inbox.clear();
+                    g.waker = None;
                 }
                 let mut resp = u.stream.send_message(DnsRequest::from(request));
                 // first poll: sign, bind, send, then wait for a datagram
@@ -216,7 +224,14 @@ impl ClientPath {
                 d
             }
             ClientPath::Udp(u) => {
-                u.sh.lock().unwrap().inbox.push_back(reply.to_vec());
+                let waker = {
+                    let mut g = u.sh.lock().unwrap();
+                    g.inbox.push_back(reply.to_vec());
+                    g.waker.take()
+                };
+                if let Some(wk) = waker {
+                    wk.wake();
+                }
                 let d = u.pending.as_mut().map(poll_response).unwrap_or(Delivered::Err("no pending request".into()));
                 u.pending = None;
                 d
